@@ -986,6 +986,60 @@ func runC04(c *core.Ctx) core.Meta {
 		}
 	}
 
+	// ---------------- R04.11 a format without rows has no decode table ----------------
+	st11 := c.Rule("R04.11", "the decode table of a format is created when the format's first row is added, so formats that are matched but have no rows (MUBUF, MTBUF, MIMG, EXP, VINTRP) have a nil table: every dereference of decodeTables[format] outside the construction of the disassembler is reached only on a path that found that entry non-nil; otherwise an unsupported encoding is reported by a nil-pointer fault instead of an error", 2)
+	pi.Instrs(func(fn *ssa.Function, in ssa.Instruction) {
+		// dereference of a *decodeTable: field address on a value looked up from decodeTables
+		fa, ok := in.(*ssa.FieldAddr)
+		if !ok || namedTypeName(fa.X.Type()) != "insts.decodeTable" {
+			return
+		}
+		lk, ok := fa.X.(*ssa.Lookup)
+		if !ok {
+			if ex, isEx := fa.X.(*ssa.Extract); isEx {
+				lk, ok = ex.Tuple.(*ssa.Lookup)
+			}
+		}
+		if !ok {
+			return
+		}
+		if f := core.LoadedField(lk.X); f == nil || f.Name() != "decodeTables" {
+			return
+		}
+		name := fn.Name()
+		if name == "addInstType" || name == "initializeDecodeTable" || strings.HasPrefix(name, "init") {
+			return // construction time: rows are being added
+		}
+		st11.Instances++
+		c.MarkAnalysed(fn)
+		g := core.BuildGraph(fn, 0, nil)
+		keyProv := prov.Of(lk.Index)
+		okN := false
+		for _, n := range g.Nodes {
+			if n.Instr != in {
+				continue
+			}
+			okN = g.Guarded(n, NilCut(func(v ssa.Value) bool {
+				l2, isL := v.(*ssa.Lookup)
+				if !isL {
+					if ex, isEx := v.(*ssa.Extract); isEx {
+						l2, isL = ex.Tuple.(*ssa.Lookup)
+					}
+				}
+				if !isL {
+					return false
+				}
+				f := core.LoadedField(l2.X)
+				return f != nil && f.Name() == "decodeTables" && prov.Of(l2.Index) == keyProv
+			}, false))
+		}
+		st11.Ob(okN)
+		st11.Sample("%s: decodeTables[%s] dereferenced only where found non-nil: %v", core.FuncName(fn), short(keyProv), okN)
+		if !okN {
+			c.ReportAt("R04.11", fn, in.Pos(), "nil-decode-table", core.FuncName(fn)+" dereferences decodeTables["+short(keyProv)+"] on a path that did not find it non-nil: for a word of a format that has no rows (MUBUF, MTBUF, MIMG, EXP, VINTRP) decoding faults with a nil-pointer dereference instead of returning an error")
+		}
+	})
+
 	// ---------------- R04.6 callers use the error path ----------------
 	st6 := c.Rule("R04.6", "every caller of Disassembler.Decode uses the decoded instruction only on paths on which the returned error was found nil", 3)
 	for _, rel := range []string{instsPkg, "amd/emu", "amd/timing/cu"} {
